@@ -1,4 +1,8 @@
 import OmplModel.Proofs.PdfSample
+import OmplModel.Proofs.ESTPdf
+import Mathlib.Tactic.FieldSimp
+import Mathlib.Tactic.Ring
+import Mathlib.Algebra.Order.Field.Basic
 /-!
 C12 — weighted sampling follows the current weights after any edits (`ompl::PDF`).
 
@@ -216,4 +220,144 @@ example := zero_weight_never_drawn (α := ℚ) [.add 1, .add 0, .add 3, .update 
 
 end ring
 end EX
+/-! ## the main user of the PDF: `geometric::EST` -/
+open OmplModel.EST OmplModel.PlannerReport
+open OmplModel.RRT (Chain)
+
+section EST
+variable {S D : Type}
+
+theorem solve_final [WScale D] (cfg : Cfg S D) (starts : Array S) (sc : Script S D) (budget : Nat) :
+    (solve cfg starts sc budget).final =
+      if (initSt cfg starts sc).1.tree.size = 0 then (initSt cfg starts sc).1
+      else loop cfg budget (initSt cfg starts sc).1 := by
+  unfold solve
+  simp only
+  split
+  · rfl
+  · split <;> rfl
+
+/-- **EST tree invariant**, for every configuration, start set, script (draws, sampler and goal answers) and
+interruption point (`budget`): every root is a problem-definition start that satisfies the bounds and is valid;
+every other motion's parent was inserted earlier and `checkMotion(parent, child)` returned true. -/
+theorem est_tree_inv [WScale D] (cfg : Cfg S D) (starts : Array S) (sc : Script S D) (budget : Nat) :
+    TreeInv cfg starts (solve cfg starts sc budget).final.tree := by
+  rw [solve_final]
+  have hi := initSt_inv cfg starts sc
+  split
+  · exact hi.1.tree
+  · exact (loop_inv cfg starts budget _ hi.1 hi.2).tree
+
+theorem final_pdfInv [WScale D] (cfg : Cfg S D) (hw : ∀ k, WOps.lt (cfg.wNew k) (WOps.zero : D) = false)
+    (starts : Array S) (sc : Script S D) (budget : Nat) : PdfInv cfg (solve cfg starts sc budget).final := by
+  rw [solve_final]
+  have hi := initSt_pdfInv cfg hw starts sc
+  split
+  · exact hi
+  · exact loop_pdfInv cfg hw budget _ hi
+
+/-- **The PDF follows the tree** [AF], for every script and interruption point: the PDF holds exactly one
+element per tree motion (as many elements as motions, the stored handles are exactly the motion indices,
+`index_` fields in sync, tree shape intact) and the weight of motion `i`'s element is the coded formula
+for the motion's CURRENT neighbour counts: `wNew` of the neighbours found at insertion, then `wUpd`
+once for every later motion that found `i` in its neighbourhood.  (`hw`: `add` never rejects `wNew k`.) -/
+theorem est_pdf_sync [WScale D] (cfg : Cfg S D) (hw : ∀ k, WOps.lt (cfg.wNew k) (WOps.zero : D) = false)
+    (starts : Array S) (sc : Script S D) (budget : Nat) :
+    let st := (solve cfg starts sc budget).final
+    st.pdf.data.size = st.tree.size ∧ ShapeInv st.pdf ∧ IdxSync st.pdf ∧
+      (∀ h, h ∈ st.pdf.data ↔ h < st.tree.size) ∧
+      ∀ i, i < st.tree.size →
+        st.pdf.getWeight i = some ((cfg.wUpd)^[later cfg st.tree i] (cfg.wNew (earlier cfg st.tree i))) := by
+  intro st
+  have h := final_pdfInv cfg hw starts sc budget
+  refine ⟨h.p.size, h.p.shape, h.p.idx, fun k => ⟨?_, ?_⟩, h.weight⟩
+  · intro hm
+    obtain ⟨i, hi, e⟩ := Array.getElem_of_mem hm
+    have := h.p.idx.fwd i hi
+    rw [e] at this
+    rcases Nat.lt_or_ge k st.tree.size with hk | hk
+    · exact hk
+    · have := h.p.idx.fresh k (by rw [h.p.next]; exact hk)
+      simp_all
+  · intro hk
+    have hwk := h.weight k hk
+    rw [getWeight_eq] at hwk
+    cases hi : st.pdf.idx k with
+    | none => rw [hi] at hwk; simp at hwk
+    | some i => exact Array.mem_of_getElem? (h.p.idx.bwd k i hi)
+
+/-- [EX] in an ordered field, with the formulas as coded (`1/(k+1)`, `w/(w+1)`), the weight is
+`1 / (current number of neighbours + 1)`. -/
+theorem est_weight_is_inverse_count {K : Type} [Field K] [LinearOrder K] [IsStrictOrderedRing K]
+    (k n : Nat) : (fun w : K => w / (w + 1))^[n] (1 / ((k : K) + 1)) = 1 / (((k + n : Nat) : K) + 1) := by
+  induction n with
+  | zero => simp
+  | succ n ih =>
+    rw [Function.iterate_succ_apply', ih]
+    have h1 : ((k + n : Nat) : K) + 1 ≠ 0 := by positivity
+    have h2 : ((k + (n + 1) : Nat) : K) + 1 ≠ 0 := by positivity
+    field_simp
+    push_cast
+    ring
+
+theorem sample_ok_mem [WScale D] (s : Pdf D) (r : D) (h : Nat) (hs : s.sample r = .ok h) : h ∈ s.data := by
+  unfold Pdf.sample at hs
+  split at hs
+  · cases hs
+  · split at hs
+    · cases hs
+    · split at hs
+      · cases hs
+      · split at hs
+        · cases hs
+        · next h' hd =>
+          simp only [SampleRes.ok.injEq] at hs
+          subst hs
+          exact Array.mem_of_getElem? hd
+
+/-- **The motion `pdf_.sample` selects is a tree motion** [AF]: at every interruption point of every run
+with a non-empty tree, for every value `r` whatsoever, `pdf_.sample(r)` never reads out of range, never
+finds the PDF empty, and if it returns an element then that element is a motion of the tree (so
+`existing` never dangles); for `r` in `[0,1]` it does return one. -/
+theorem est_select_is_tree_motion [WScale D] (cfg : Cfg S D)
+    (hw : ∀ k, WOps.lt (cfg.wNew k) (WOps.zero : D) = false) (starts : Array S) (sc : Script S D)
+    (budget : Nat) (r : D) :
+    ∀ st, st = (solve cfg starts sc budget).final →
+    0 < st.tree.size →
+    st.pdf.sample r ≠ .oob ∧ st.pdf.sample r ≠ .errEmpty ∧
+      (∀ h, st.pdf.sample r = .ok h → ∃ nd, st.tree[h]? = some nd) ∧
+      ((WOps.lt r (WOps.zero : D) || WOps.lt (WScale.one : D) r) = false → ∃ h, st.pdf.sample r = .ok h) := by
+  intro st hst hn
+  subst hst
+  have h := final_pdfInv cfg hw starts sc budget
+  have hsync := est_pdf_sync cfg hw starts sc budget
+  have hoob := sample_inbounds_of_shape (solve cfg starts sc budget).final.pdf r h.p.shape
+  have hne : (solve cfg starts sc budget).final.pdf.data.size ≠ 0 := by rw [h.p.size]; omega
+  have hemp : (solve cfg starts sc budget).final.pdf.sample r ≠ .errEmpty := by
+    unfold Pdf.sample
+    rw [if_neg hne]
+    split
+    · simp
+    · split
+      · simp
+      · split <;> simp
+  refine ⟨hoob, hemp, ?_, ?_⟩
+  · intro k hk
+    have := (hsync.2.2.2.1 k).mp (sample_ok_mem _ r k hk)
+    exact ⟨(solve cfg starts sc budget).final.tree[k], by simp [this]⟩
+  · intro hr
+    cases hres : (solve cfg starts sc budget).final.pdf.sample r with
+    | ok k => exact ⟨k, rfl⟩
+    | errEmpty => exact absurd hres hemp
+    | oob => exact absurd hres hoob
+    | errRange =>
+      unfold Pdf.sample at hres
+      rw [if_neg hne, hr] at hres
+      simp only [Bool.false_eq_true, if_false] at hres
+      split at hres
+      · cases hres
+      · split at hres <;> cases hres
+
+end EST
+
 end OmplModel.Props.C12
